@@ -425,13 +425,22 @@ def check(P, R):
     rmm_ = rc_.methods.get('remove_method')
     if rmm_ is not None:
         n_rm = 0
+
+        def _tbl(e_):
+            # `self._methods`, or a local that is a plain copy of it
+            if dotted(e_) == 'self._methods':
+                return True
+            if isinstance(e_, ast.Name) and rmm_.rd.is_local(e_.id):
+                ds_ = [d for n2_ in rmm_.cfg.nodes for d in rmm_.rd.gen.get(n2_, []) if d.name == e_.id]
+                return bool(ds_) and all(d.value is not None and dotted(d.value) == 'self._methods' for d in ds_)
+            return False
         for st_ in walk_shallow(rmm_.node):
             removal = None
-            if isinstance(st_, ast.Delete) and any(isinstance(t_, ast.Subscript) and dotted(t_.value) == 'self._methods' for t_ in st_.targets):
+            if isinstance(st_, ast.Delete) and any(isinstance(t_, ast.Subscript) and _tbl(t_.value) for t_ in st_.targets):
                 removal = st_
-            elif isinstance(st_, ast.Call) and call_attr(st_) == 'pop' and dotted(st_.func.value) == 'self._methods' and len(st_.args) == 1:
+            elif isinstance(st_, ast.Call) and call_attr(st_) == 'pop' and _tbl(st_.func.value) and len(st_.args) == 1:
                 removal = st_
-            elif isinstance(st_, ast.Call) and call_attr(st_) == 'pop' and dotted(st_.func.value) == 'self._methods':
+            elif isinstance(st_, ast.Call) and call_attr(st_) == 'pop' and _tbl(st_.func.value):
                 n_rm += 1
             if removal is None:
                 continue
